@@ -1266,6 +1266,8 @@ class Frame(registering.StoriedRegistrar):
 
         frame = self.under #trace down
         while(frame): #while not below bottom
+            if frame in outline: #primary under links (under verb) create loop
+                raise excepting.ResolveError("Outline unders create loop", self.name, frame.name)
             outline.append(frame)
             frame = frame.under
 
